@@ -1,5 +1,6 @@
 """Pipeline facts about canonicalize_url / normalize_url / fingerprint_url shared by C01-C07."""
 import ast
+import re
 
 from ..srcmodel import AnalysisError, Unknown, Regex, unparse
 from .. import facts as F
@@ -205,3 +206,77 @@ def regex_const(ctx, qual):
         raise AnalysisError("%s is not a compiled regex" % qual)
     ctx.rx(qual)
     return v
+
+
+# ----------------------------------------------------------------------
+# shared small rules added after the second round of seeded variants
+# ----------------------------------------------------------------------
+def rule_qsl(ctx, rule):
+    """query items are cut at '&' and each item at its FIRST '=' (writer joins with the same two separators)."""
+    ctx.rule(rule, "query item splitting: safe_qsl_iter cuts the query at '&' and each item at its first '=' only (split('=', 1) / partition), never from the right; safe_serialize_qsl joins with '&' and '='")
+    repo = ctx.repo
+    ut = repo.mod("utils")
+    it = ut.func("safe_qsl_iter").node
+    ctx.fn("ural.utils.safe_qsl_iter", "ural.utils.safe_serialize_qsl")
+    calls = [c for c in ast.walk(it) if isinstance(c, ast.Call) and isinstance(c.func, ast.Attribute) and c.func.attr in ("split", "rsplit", "partition", "rpartition") and c.args and isinstance(c.args[0], ast.Constant)]
+    amp = [c for c in calls if c.args[0].value == "&"]
+    eq = [c for c in calls if c.args[0].value == "="]
+    ctx.ob(rule, "safe_qsl_iter/items-cut-at-ampersand", len(amp) == 1 and amp[0].func.attr == "split" and len(amp[0].args) == 1, "safe_qsl_iter does not cut the query at every '&'", ut.site(it))
+    ctx.ob(rule, "safe_qsl_iter/item-cut-at-first-equals", bool(eq) and all((c.func.attr == "split" and len(c.args) == 2 and isinstance(c.args[1], ast.Constant) and c.args[1].value == 1) or c.func.attr == "partition" for c in eq),
+           "safe_qsl_iter cuts an item with `%s`: the key/value boundary must be the FIRST '=' ('token=YWJjZA==' has the key 'token')" % (unparse(eq[0]) if eq else "?"), ut.site(it), witness="?token=YWJjZA==&next=home")
+    ser = ut.func("safe_serialize_query_item").node
+    consts = [n.value for n in ast.walk(ser) if isinstance(n, ast.Constant) and isinstance(n.value, str)]
+    ctx.ob(rule, "safe_serialize_query_item/key=value", "%s=%s" in consts or "=" in consts, "safe_serialize_query_item does not join key and value with '='", ut.site(ser))
+    ser2 = ut.func("safe_serialize_qsl").node
+    consts = [n.value for n in ast.walk(ser2) if isinstance(n, ast.Constant) and isinstance(n.value, str)]
+    ctx.ob(rule, "safe_serialize_qsl/joined-with-ampersand", "&" in consts, "safe_serialize_qsl does not join the items with '&'", ut.site(ser2))
+
+
+def rule_safe_urlsplit(ctx, rule):
+    """safe_urlsplit prepends a scheme exactly when PROTOCOL_RE does not match (no other shortcut)."""
+    repo = ctx.repo
+    ut = repo.mod("utils")
+    sref = ut.func("safe_urlsplit")
+    ctx.fn(sref.qualname)
+    ex = P.Extractor(repo, atomic=set())
+    rets = [r for r in ex.function(sref) if r.kind == "return"]
+    parses = [r for r in rets if r.term[0] == "call" and r.term[1] == "urllib.parse.urlsplit"]
+    ctx.ob(rule, "safe_urlsplit/ends-in-standard-parser", len(parses) >= 1, "safe_urlsplit does not end in the standard parser", ut.site(sref.node))
+    url = ("param", "url")
+    for r in parses:
+        arg = r.term[2][0]
+        ok = False
+        if arg[0] == "phi":
+            c = arg[1]
+            exact = c == ("not", ("call", "re.match", (("global", "ural.patterns.PROTOCOL_RE"), url), ())) or c == ("not", ("call", "ural.patterns.PROTOCOL_RE.match", (url,), ()))
+            prefixed = arg[2][0] == "binop" and arg[2][1] == "Add" and arg[2][3] == url and arg[3] == url
+            ok = exact and prefixed
+        ctx.ob(rule, "safe_urlsplit/scheme-added-iff-PROTOCOL_RE-does-not-match", ok,
+               "safe_urlsplit decides whether to prepend a scheme with `%s`, not with `not PROTOCOL_RE.match(url)` alone: a scheme-less url that merely contains '://' or '//' further on loses its host ('l.facebook.com/l.php?u=http://lemonde.fr')" % (P.show(arg[1], maxdepth=4) if arg[0] == "phi" else P.show(arg, maxdepth=3)),
+               ut.site(sref.node), witness="bit.ly/1sNZMwL?next=https://twitter.com/x")
+    pre = [r for r in rets if r.term == url]
+    ctx.ob(rule, "safe_urlsplit/pre-parsed-returned-as-is", any(any(c[0] == "call" and c[1] == "builtins.isinstance" for c, pol in r.conds if pol) for r in pre), "safe_urlsplit does not return an already parsed url unchanged", ut.site(sref.node))
+
+
+def rule_special_hosts(ctx, rule):
+    """SPECIAL_HOSTS_RE: exactly localhost / dotted quad (optional port) / colon-bearing hex literal, whole string."""
+    rx = regex_const(ctx, "ural.patterns.SPECIAL_HOSTS_RE")
+    pm = ctx.repo.mod("patterns")
+    site = pm.site(ctx.repo.const_node(pm, "SPECIAL_HOSTS_RE"))
+    try:
+        A = Algebra()
+        a = A.regex(rx.pattern, rx.flags, "match", "SPECIAL_HOSTS_RE")
+        nonl = A.regex(r"[^\n]*", 0, "fullmatch")
+        must = A.regex(r"(?:localhost|(?:\d{1,3}\.){3}\d{1,3}|[\da-f]*:[\da-f:]*)", re.I, "fullmatch")
+        may = A.regex(r"(?:(?:localhost|(?:\d{1,3}\.){3}\d{1,3})(?::\d*)?|[\da-f.]*:[\da-f:.]*)", re.I, "fullmatch")
+        w = A.subset(must, a)
+        ctx.ob(rule, "SPECIAL_HOSTS_RE/covers-localhost-ipv4-ipv6", w is None, "SPECIAL_HOSTS_RE no longer recognises the special host %r" % w, site, witness=w)
+        w = A.subset(A.inter(a, nonl), may)
+        ctx.ob(rule, "SPECIAL_HOSTS_RE/nothing-else", w is None,
+               "SPECIAL_HOSTS_RE treats %r as a special host (only localhost, dotted quads and colon-bearing hex literals are): ordinary hostnames skip the TLD / suffix / tokenisation logic" % w, site, witness=w)
+    except Unsupported as e:
+        ctx.undecided(rule, "SPECIAL_HOSTS_RE: %s" % e)
+    hm = ctx.repo.mod("has_special_host")
+    fn = hm.func("is_special_host").node
+    ok = "SPECIAL_HOSTS_RE.match(hostname)" in unparse(fn) or "re.match(SPECIAL_HOSTS_RE, hostname)" in unparse(fn)
+    ctx.ob(rule, "is_special_host/matches-the-hostname", ok, "is_special_host does not apply SPECIAL_HOSTS_RE.match to the hostname", hm.site(fn))
